@@ -78,8 +78,8 @@ class Sc:
     def T(self):
         self.ev.append("T"); return self
 
-    def line_sm(self, ms, num, thr, mode):
-        return "c10.sm %s %d:%d:%d:%d %s" % (self.stream, ms, num, thr, mode, ",".join(self.ev) if self.ev else "-")
+    def line_sm(self, ms, num, thr, mode, sw=None):
+        return "c10.sm %s %d:%d:%d:%d%s %s" % (self.stream, ms, num, thr, mode, ":" + sw if sw else "", ",".join(self.ev) if self.ev else "-")
 
     def P(self, k=0, raw=None):
         self.ev.append("P:" + (raw if raw is not None else patpmt(k))); return self
@@ -275,6 +275,13 @@ def gen_cases(tier, rng):
                 continue
             seen.add(w)
             yield Case(sm_script(w, ms).line_sm(ms, num, thr, mode), cls="server-" + ("republish-after-erase" if "TR" in w.replace("C", "") else "interleaving"))
+    # hls.enable / hls.enable_https: on the https port only (01), on both (11), off (00 = no muxer, no call at all).
+    # Start, stop and cleanup test the switches in three places; every configuration that starts a muxer must
+    # finalise it when the input ends and arm the delayed cleanup as the cleanup mode says.
+    for sw in ["01", "11", "00"]:
+        for mode, (ms, num, thr) in [(1, (20, 2, 1)), (2, (25, 1, 1)), (0, (50, 1, 0))]:
+            for w in (["", "C", "TRC", "RC", "TCR", "RDC"] if sw != "00" else ["", "TRC"]):
+                yield Case(sm_script(w, ms).line_sm(ms, num, thr, mode, sw), cls="server-switches-" + sw)
     # hostile / degenerate inputs: compared model == implementation only
     sc = Sc().P().V(0, True).D().C()
     yield Case(sc.line(1000, 3, 1, 0), cls="degenerate")
@@ -334,9 +341,11 @@ def nontrivial(c, out):
     if c.line.startswith("c10.cleanup"):
         return c.line
     if c.line.startswith("c10.sm"):
+        f = c.line.split(" ")
+        if f[2].endswith(":00") and out.startswith("ev "):
+            return "%s|%s" % (c.cls, f[2])
         if not out.startswith("ev ") or ";rn:" not in out:
             return None
-        f = c.line.split(" ")
         return "%s|%s|%s" % (c.cls, f[2], "".join(e[0] for e in f[3].split(",") if e[0] in "NDTC"))
     if not out.startswith("ops ") or ";rn:" not in out:
         return None
@@ -436,7 +445,7 @@ def parse_m3u8(text):
 def parse_case(line):
     f = line.split(" ")
     stream = f[1]
-    ms, num, thr, mode = [int(x) for x in f[2].split(":")]
+    ms, num, thr, mode = [int(x) for x in f[2].split(":")[:4]]
     evs = [] if f[3] == "-" else [e.split(":") for e in f[3].split(",")]
     return stream, (ms, num, thr, mode), evs
 
@@ -519,6 +528,26 @@ def check(line, out):
         # and nothing but a delayed cleanup ever removes it: liveness is read off the SCRIPT (N .. D), the
         # removal off the implementation's calls
         groups = parse_groups(out)
+        cff = line.split(" ")[2].split(":")
+        sw = cff[4] if len(cff) > 4 else "10"
+        if sw == "00":
+            # hls is off: no muxer, hence no call at all
+            if any(g for g in groups):
+                fails.append(("ops", "hls.enable and hls.enable_https are off but the hls file-system layer was called"))
+            return fails
+        # the delayed cleanup is armed as the cleanup mode says: a firing that finds no publisher removes the directory
+        pend, alive0 = 0, False
+        for n, (e, g) in enumerate(zip(evs, groups)):
+            if e[0] == "N":
+                alive0 = True
+            elif e[0] == "D":
+                if alive0 and mode in (1, 2):
+                    pend += 1
+                alive0 = False
+            elif e[0] == "C" and pend > 0:
+                pend -= 1
+                if not alive0 and not any(o[0] == "ra" for o in g):
+                    fails.append(("cleanup-armed", "event %d (C): cleanup mode %d, no publisher, but the stream directory was not removed" % (n, mode)))
         if len(groups) != len(evs):
             fails.append(("ops", "%d events but %d groups of calls" % (len(evs), len(groups))))
         alive = False
